@@ -18,6 +18,7 @@ from .seqs import DRef, LRef, SObj, View
 from .text import SText, TextShape as Text  # noqa: F401
 from .shapes import Atom, Bool, Const, Custom, Enum, Int, ListOf, Nat, Obj, Opaque, Opt, Slice, Tup, TupleOf, Union  # noqa: F401
 from .values import (  # noqa: F401
+    ForallGoal,
     SBool,
     Sym,
     Unsupported,
@@ -337,6 +338,10 @@ class VerifyTask:
             self.config.max_paths = c.max_paths
         if getattr(c, "forall_range_check", True) is False:
             self.config.forall_range_check = False
+        if getattr(c, "ground_first", False):
+            self.config.ground_first = True
+        if getattr(c, "rounding_hints", False):
+            self.config.rounding_hints = True
         self.ref = fn_override or SRC.resolve(c.target)
         self.used_contracts: set = set()
         self.inlined: set = set()
